@@ -90,7 +90,7 @@ def run_case(case, rec):
         routes['xz'] = f_xz
         pkg = inputs / 'pkg' / 'mypackage'
         pkg.mkdir(parents=True)
-        (pkg / 'wordnet.xml').write_bytes(data)
+        (pkg / r.choice(['wordnet.xml', 'wordnet.lmf', 'WORDNET', 'wn.xml.txt'])).write_bytes(data)
         (pkg / 'README.md').write_text('readme')
         (pkg / 'LICENSE').write_text('license')
         (pkg / 'citation.bib').write_text('@misc{x}')
@@ -113,7 +113,7 @@ def run_case(case, rec):
             for i, lx in enumerate(res['lexicons']):
                 d = coll / f'p{i}'
                 d.mkdir()
-                (d / f'lex{i}.xml').write_bytes(xmlw.dumps({'lmf_version': v, 'lexicons': [lx]}, random.Random(i)))
+                (d / r.choice([f'lex{i}.xml', f'lex{i}.lmf', f'lex{i}'])).write_bytes(xmlw.dumps({'lmf_version': v, 'lexicons': [lx]}, random.Random(i)))
                 (d / 'LICENSE.txt').write_text('x')
             routes['collection'] = coll
             t = inputs / 'collection.tar.gz'
